@@ -8,8 +8,10 @@ MC:   LocksetOK, NoRace, CallbackUnlocked, NoSelfLock, SnapshotAtomic, Consisten
 TV:   harness/drv_locks.c runs the real library with 2-4 threads on long seeded streams; mutex operations (linker --wrap) and
       VERIF_REGION markers share one atomic sequence number; Trace_Locks validates the log: lockset discipline, callbacks
       without cc.mutex, no thread locks a mutex it owns, every fetched page = the content the decoding thread exposed at its
-      latest release of cc.mutex, chswcd transitions, service set transitions and every raw decode = services at its
-      critical section.  The sequence of exposed page contents is compared with a single-threaded run of the same stream.
+      latest release of cc.mutex, chswcd transitions incl. the dropped-frame branch, a switch request is served by the next
+      regular frame, every frame passes its countdown section, every API call returns with nothing locked (all exit paths:
+      resize with the same / an empty geometry, add with nothing new, remove of an absent service, reset), service set
+      transitions and every raw decode = services at its critical section.  The sequence of exposed page contents is compared with a single-threaded run of the same stream.
 TSan: the same runs on the ThreadSanitizer build (tracer compiled out)."""
 import json, os, random, re, subprocess, time
 from vlib import tlc, build, core, ttx
@@ -119,7 +121,24 @@ def caption_stream(rnd, nframes):
                 out.append("X " + ttx.hexpk(ttx.header(pg, 0, ttx.C4_ERASE, text=txt)))
         else:
             out += ["P 21 80 80"] * rnd.randint(1, 4) + ["E"] * rnd.randint(0, 2)
-    return out[:nframes]
+    return with_gaps(rnd, out[:nframes])
+
+
+GAPS = [100100, 1001000, 66734, 10000, 0, -50000]     # time steps outside 25..50 ms (dropped frames, repeated or late stamps)
+
+
+def with_gaps(rnd, frames):
+    """time stamps: mostly regular (33.4 / 40 ms), now and then a burst of 1-3 frames out of step (a "T <us>" line before the frame)"""
+    out, burst = [], 0
+    for i, f in enumerate(frames):
+        if burst == 0 and i > 3 and rnd.random() < 1 / 45.0:
+            burst = rnd.randint(1, 3)
+        if burst:
+            out.append("T %d" % rnd.choice(GAPS)); burst -= 1
+        elif rnd.random() < 0.1:
+            out.append("T 40000")
+        out.append(f)
+    return out
 
 
 # ------------------------------------------------------------------ run plans
@@ -158,7 +177,7 @@ def plans(ctx):
 
 
 # ------------------------------------------------------------------ executing a plan on the real library
-def execute(ctx, drv, plan, tag, env=None, script=None, timeout=300):
+def execute(ctx, drv, plan, tag, env=None, script=None, timeout=240):
     """-> dict(rc, stderr, log path or None, lines)"""
     sp = os.path.join(ctx.scratch, "%s.txt" % tag)
     lp = os.path.join(ctx.scratch, "%s.ndjson" % tag)
@@ -192,7 +211,7 @@ def tv_key(prop, d):
         return "tv:LocksetOK:%s" % ":".join(toks[:2])                 # region, function
     if prop == "ConsistentSet":
         return "tv:ConsistentSet:%s" % (toks[0] if toks else "")      # decode / add / remove / return / check
-    if prop in ("CountdownOK", "NoSelfLock", "ContextOK"):
+    if prop in ("CountdownOK", "NoSelfLock", "ContextOK", "LockBalance", "ProloguePresent"):
         return "tv:%s:%s" % (prop, toks[0] if toks else "")
     if prop == "CallbackUnlocked":
         m = re.search(r"<<(\d+)", d)
@@ -272,7 +291,7 @@ def sequential_check(ctx, drv, plan, ev, tag):
     stream produces (channel switch requests placed at the same points of its own countdown sections)"""
     inj = switch_points(ev)
     nf, ns, hf = plan["cfg"]
-    scr = cc_script(plan["seed"], plan["nframes"], 0, 0, hf, 0, [x for x in plan["script"] if x[0] in "PXE"], mode="ccseq", inject=inj)
+    scr = cc_script(plan["seed"], plan["nframes"], 0, 0, hf, 0, [x for x in plan["script"] if x[0] in "PXET"], mode="ccseq", inject=inj)
     r = execute(ctx, drv, plan, tag + "-seq", script=scr)
     if r["rc"] != 0 or not r["log"]:
         raise tlc.ToolFailure("sequential reference run failed rc=%s: %s" % (r["rc"], r["stderr"][-800:]))
@@ -312,6 +331,25 @@ def tsan_reports(stderr, repo):
     return out
 
 
+_WD = re.compile(r"WATCHDOG: deadlock.*?calls in progress:(.*)")
+
+
+def deadlock(ctx, drv, plan, r, tag, env, rp):
+    """the driver's watchdog saw every thread blocked with no call completing.  Reported only when the same script blocks
+    again (exit 4 or the python timeout); the key names the call the decoding thread is stuck in"""
+    r2 = execute(ctx, drv, plan, tag + "-again", env=env, timeout=120)
+    if not (r2["rc"] == 4 or r2["timeout"]):
+        note = "deadlock watchdog fired once and did not reproduce (%s run, seed %s)" % (plan["kind"], plan["seed"])
+        if note not in ctx.notes:
+            ctx.notes.append(note)
+        return
+    m = _WD.search(r["stderr"]) or _WD.search(r2["stderr"])
+    calls = dict(re.findall(r"(\w+)=(\w+)", m.group(1))) if m else {}
+    fn = calls.get("dec") or (sorted(calls.values())[0] if calls else plan["kind"])
+    ctx.violate("watchdog", "deadlock:%s" % fn, "every thread is blocked and no API call completes (reproduced twice); calls in progress: %s\n%s"
+                % (calls, r["stderr"][-600:]), rp)
+
+
 def asan_in_scope(ctx, stderr, plan):
     """memory errors are what a race turns into (e.g. the job table freed under a running decode): in scope.  UBSan array
     index reports belong to C01."""
@@ -325,14 +363,17 @@ def asan_in_scope(ctx, stderr, plan):
 
 
 # ------------------------------------------------------------------ model checking
-MC_QUICK = ["MC_Locks_cc_q", "MC_Locks_ttx_q", "MC_Locks_rd_q"]
+MC_QUICK = ["MC_Locks_cc_q", "MC_Locks_ttx_q", "MC_Locks_gap_q", "MC_Locks_rd_q", "MC_Locks_paths_q"]
 MC_THOROUGH = MC_QUICK + ["MC_Locks_cc_t", "MC_Locks_long_t", "MC_Locks_rd_t", "MC_Locks_rdbig_t", "MC_Locks_big_t"]
 # variants of the code the model must reject (the code as found, the naive repair, a mutant, use outside the documentation)
 MC_EXPECT = [("MC_Locks_asfound", "invariant", "LocksetOK"), ("MC_Locks_asfound_race", "invariant", "NoRace"),
              ("MC_Locks_asfound_snap", "invariant", "SnapshotAtomic"), ("MC_Locks_asfound_cb", "invariant", "CallbackUnlocked"),
              ("MC_Locks_asfound_dl", "deadlock", "deadlock"), ("MC_Locks_lockonly", "invariant", "NoSelfLock"),
              ("MC_Locks_heldcb", "invariant", "CallbackUnlocked"), ("MC_Locks_heldcb_dl", "deadlock", "deadlock"),
-             ("MC_Locks_resize", "invariant", "NoRace")]
+             ("MC_Locks_resize", "invariant", "NoRace"),
+             # dropped-frame branch testing chswcd outside the mutex; an early return that keeps rd->mutex
+             ("MC_Locks_gapunlocked", "invariant", "LocksetOK"), ("MC_Locks_gaplost", "invariant", "SwitchServed"),
+             ("MC_Locks_resizeleak", "invariant", "LockBalance"), ("MC_Locks_resizeleak_dl", "deadlock", "deadlock")]
 
 
 def model_check(ctx):
@@ -374,7 +415,7 @@ def record_and_validate(ctx, plist, reps=1):
         if r["stderr"]:
             asan_in_scope(ctx, r["stderr"], p)
         if r["timeout"] or r["rc"] == 4:
-            ctx.violate("watchdog", "hang:%s" % p["kind"], "no progress (deadlock watchdog): %s" % r["stderr"][-600:], rp)
+            deadlock(ctx, drv, p, r, "r%d-%d" % (i, k), None, rp)
         elif r["rc"] not in (0, 3) and not core.sanitizer_reports(r["stderr"]):
             raise tlc.ToolFailure("drv_locks died rc=%s: %s" % (r["rc"], r["stderr"][-1500:]))
         if r["log"]:
@@ -429,7 +470,7 @@ def tsan_pass(ctx, plist):
                 continue
             ctx.violate("tsan", "tsan:%s:%s" % (kind, pair), text, rp)
         if r["timeout"] or r["rc"] == 4:
-            ctx.violate("watchdog", "hang:%s" % p["kind"], "no progress under ThreadSanitizer (deadlock watchdog): %s" % r["stderr"][-600:], rp)
+            deadlock(ctx, drv, p, r, "t%d" % i, build.san_env(), rp)
         elif r["rc"] != 0 and not reps:
             raise tlc.ToolFailure("drv_locks (tsan) died rc=%s: %s" % (r["rc"], r["stderr"][-1500:]))
         else:
@@ -445,7 +486,8 @@ def run(ctx):
     ctx.assumptions += ["only the documented cross-thread operations are driven: vbi_fetch_cc_page and vbi_channel_switched against vbi_decode; "
                         "vbi_raw_decoder_add/remove/check_services against vbi_raw_decode (legacy vbi_raw_decoder)",
                         "event handlers run in the decoding thread and may call vbi_fetch_cc_page (documented as safe)",
-                        "frames arrive with regular time stamps (no frame-drop path in vbi_decode)",
+                        "the geometry of the raw decoder is changed by the decoding thread itself between two decodes (resize concurrent with "
+                        "decode is outside the documented usage)",
                         "the VERIF_REGION markers sit on every function that touches the shared regions (DESIGN 3.2); mutex events come from the linker wrap"]
     model_check(ctx)
     plist = plans(ctx)
@@ -483,8 +525,8 @@ def selftest(ctx):
     """corrupt single fields of an accepted recording: every corruption must be rejected by Trace_Locks"""
     drv = build.build_driver("drv_locks", extra=WRAP)
     rnd = random.Random(11)
-    pc = dict(kind="cc", seed=77, threads=3, cfg=(1, 1, True), nframes=500, script=cc_script(77, 500, 1, 1, True, 4, caption_stream(rnd, 500)))
-    pr = dict(kind="rd", seed=78, threads=3, cfg=(1, 1), nframes=400, script=rd_script(78, 1, 1, 400, 150))
+    pc = dict(kind="cc", seed=77, threads=3, cfg=(1, 1, True), nframes=800, script=cc_script(77, 800, 1, 1, True, 6, caption_stream(rnd, 800)))
+    pr = dict(kind="rd", seed=78, threads=3, cfg=(1, 1), nframes=800, script=rd_script(78, 1, 1, 800, 250))
     bad = 0
     for p in (pc, pr):
         r = execute(ctx, drv, p, "self-" + p["kind"])
@@ -505,7 +547,19 @@ def selftest(ctx):
             lk = max(x for x in range(k) if ev[x]["e"] == "lock" and ev[x]["t"] == "f1" and ev[x]["m"] == "cc")
             i = max(x for x in range(lk) if ev[x]["e"] == "unlock" and "pv" in ev[x])
             muts.append(("exposed page content changed", i, dict(ev[i], pv=["f" * 16] * 8)))
+            # a frame whose countdown section is missing (its three events removed one by one would be three cases: drop the unlock's frame)
+            fr = [x for x, e in enumerate(ev) if e["e"] == "call" and e.get("op") == "frame"]
+            g = next(x for x in fr if not (25000 <= ev[x]["dt"] <= 50000))
+            muts.append(("dropped-frame step declared regular", g, dict(ev[g], dt=33367)))
+            i = next(x for x in range(g, len(ev)) if ev[x]["e"] == "unlock" and ev[x]["m"] == "chsw" and ev[x]["t"] == "dec")
+            muts.append(("countdown re-armed over a running one", i, dict(ev[i], v=40 if ev[i]["v"] != 40 else 39)))
+            i = first(lambda e: e["e"] == "unlock" and e["t"] == "sw" and e["m"] == "chsw")
+            muts.append(("unlock of the switching thread removed", i, None))
         else:
+            i = first(lambda e: e["e"] == "unlock" and e["t"] == "dec" and e["m"] == "rd" and False) if False else None
+            k = first(lambda e: e["e"] == "ret" and e["op"] == "resize_same")
+            i = max(x for x in range(k) if ev[x]["e"] == "unlock" and ev[x]["t"] == "dec")
+            muts.append(("resize returns with rd->mutex held", i, None))
             i = first(lambda e: e["e"] == "rawdec" and e["ids"]); muts.append(("decoded ids lose a service", i, dict(ev[i], ids=ev[i]["ids"][1:])))
             i = first(lambda e: e["e"] == "unlock" and e["t"] == "mod1"); muts.append(("service set after a change altered", i, dict(ev[i], svc=["ttx"] if ev[i]["svc"] != ["ttx"] else ["vps"])))
             i = first(lambda e: e["e"] == "lock" and e["t"] == "mod1"); muts.append(("lock event of the changing thread removed", i, None))
